@@ -89,7 +89,7 @@ func rootGlobal(v ssa.Value) *ssa.Global {
 // Everything under the module of the code under test is always allowed.
 var pureInitPrefixes = []string{
 	"strings", "strconv", "unicode", "unicode/utf8", "unicode/utf16", "sort", "slices", "maps", "cmp", "errors", "bytes",
-	"regexp", "regexp/syntax", "container/list", "math", "math/bits", "net/http", "net/textproto", "path", "path/filepath",
+	"regexp", "regexp/syntax", "container/list", "math", "math/bits", "net/http", "net/http/internal", "net/http/internal/ascii", "net/textproto", "mime", "mime/multipart", "path", "path/filepath",
 	"encoding/base64", "encoding/hex", "html", "net/url", "go/", "text/", "iter", "io", "bufio", "fmt", "math/big",
 	"github.com/", "gopkg.in/", "golang.org/x/", "go.yaml.in/",
 }
@@ -138,7 +138,11 @@ func (i *interpreter) globalAddr(g *ssa.Global) *value {
 				i.globals[g] = &cell
 				return &cell
 			} else {
-				i.path.abort("read of global %s whose package initialiser cannot be interpreted", g.String())
+				where := ""
+				for k := len(i.path.stack) - 1; k >= 0 && k >= len(i.path.stack)-4; k-- {
+					where += " <- " + i.path.stack[k].String()
+				}
+				i.path.abort("read of global %s whose package initialiser cannot be interpreted%s", g.String(), where)
 			}
 		}
 	}
@@ -168,6 +172,12 @@ func (i *interpreter) runInit(pkg *ssa.Package) {
 var globalOverrides = map[string]func(i *interpreter) value{
 	"internal/bytealg.MaxLen":        func(i *interpreter) value { return int(63) },
 	"internal/bytealg.MaxBruteForce": func(i *interpreter) value { return int(64) },
+	// time.Local = &localLoc: a zero Location (never consulted for anything a check observes)
+	"time.Local": func(i *interpreter) value {
+		pkg := i.prog.ImportedPackage("time")
+		cell := zero(pkg.Type("Location").Type())
+		return &cell
+	},
 }
 
 // ------------------------------------------------------------------ running
